@@ -10,15 +10,19 @@ from ..report import Ctx
 from .common import INDIVIDUAL, STEP
 
 LEVEL_TEXT = (
-    "Static rules on TournamentSelection.iterate and LexicaseSelection.iterate (found through GeneticStep): (R1) "
-    "tournament participants are random.choice draws from a list derived from the input population, exactly "
-    "tournament_size of them, the winner is max over exactly the drawn list keyed by the maximising aggregate "
-    "(Individual.key_function -> Fitness[0] = maximizing_aggregate) and the winner is what is yielded; (R2) the "
-    "lexicase case order that reaches the filtering loop is (re)defined by a shuffle inside each winner's iteration; "
-    "(R3) per case, the best value, the comparison and the epsilon band flip together with the case's minimise flag "
-    "(evaluated under both values) and the threshold is computed from the current candidates; (R4) every yielded "
-    "winner is drawn from the remaining pool and removed from it once; the pool is a fresh copy of the population. "
-    "Decides these for all populations, sizes and draws; outcome distributions are not decided."
+    "Finite-model interpretation of TournamentSelection.iterate and LexicaseSelection.iterate (found through GeneticStep by "
+    "their constructor parameters; helper methods, closures and lambdas inlined; nothing is executed).  The population is "
+    "three symbolic individuals with small concrete fitness values, the random source is a script: choice picks by index, "
+    "shuffle applies the next scripted permutation in place and returns its argument (as RandomSource.shuffle does). (R1) "
+    "tournament, for sizes 1, 2 and 4, with/without replacement, 4 fitness assignments (ties, all -inf, minimised problem "
+    "where the raw component orders the other way) x 3 pick scripts: every winner is a member of the population, one of the "
+    "participants drawn for its tournament, at least as fit (maximising aggregate) as each of them, and tournament_size "
+    "participants are drawn; Individual.key_function is the maximising aggregate. (R2) lexicase: exactly one shuffle of the "
+    "full case list between consecutive winners. (R3) every winner is among the survivors of the reference lexicase filter "
+    "for that winner's scripted order over the individuals still available - all four minimise-flag combinations, two "
+    "fitness tables, epsilon off and on (median absolute deviation band), a crash for lack of survivors is a violation. "
+    "(R4) winners are members of the population and none is returned twice. Decides these for the model sizes and all "
+    "scripted draws; outcome distributions are not decided."
 )
 
 
@@ -138,199 +142,183 @@ def check_key_function(ctx: Ctx) -> None:
     ctx.ob("C17.R1", kf, kf.node, "Individual.key_function = maximising aggregate of the individual", ok, "" if ok else why)
 
 
-def tournament(ctx: Ctx, fn: FunctionInfo) -> None:
-    pop = fn.params[5]
-    loop = winner_loop(fn)
-    if loop is None:
-        ctx.ob("C17.R1", fn, fn.node, "per-winner loop", None, "no loop yielding winners")
-        return
-    ys = [y for st in loop.body for y in ast.walk(st) if isinstance(y, ast.Yield)]
-    der = derived_names(fn, {pop})
-    for y in ys:
-        ystmt = top_in(loop.body, y)
-        w = y.value
-        ok = False
-        why = "the yielded value is not the maximum of the drawn participants"
-        if isinstance(w, ast.Name):
-            d = last_def_before(loop.body, w.id, ystmt)
-            if d is not None and isinstance(d.value, ast.Call) and call_name(d.value) in ("max", "min") and d.value.args:
-                chooser = call_name(d.value)
-                seq = d.value.args[0]
-                key = next((k.value for k in d.value.keywords if k.arg == "key"), None)
-                key_ok = isinstance(key, ast.Call) and call_name(key) == "key_function" and key.args \
-                    and isinstance(key.args[0], ast.Name) and key.args[0].id == fn.params[1]
-                if chooser != "max":
-                    why = "the tournament winner is chosen with min(): the least fit participant wins"
-                elif not key_ok:
-                    why = "the winner is not chosen by the maximising aggregate for the problem"
-                elif isinstance(seq, ast.Name):
-                    sd = last_def_before(loop.body, seq.id, top_in(loop.body, d))
-                    if sd is not None and isinstance(sd.value, ast.ListComp):
-                        lc = sd.value
-                        draw = lc.elt
-                        it = lc.generators[0].iter
-                        n_ok = isinstance(it, ast.Call) and call_name(it) == "range" and len(it.args) == 1 \
-                            and is_self_attr(it.args[0], "tournament_size") and not lc.generators[0].ifs
-                        draw_ok = isinstance(draw, ast.Call) and call_name(draw) == "choice" and draw.args \
-                            and isinstance(draw.args[0], ast.Name) and draw.args[0].id in der
-                        ok = n_ok and draw_ok
-                        if not draw_ok:
-                            why = "participants are not random.choice draws from a list derived from the population"
-                        elif not n_ok:
-                            why = "the number of participants is not tournament_size"
-                    else:
-                        why = "the list the maximum is taken over is not the list of this tournament's draws"
-        ctx.ob("C17.R1", fn, y, "winner = max(drawn participants, key=maximising aggregate), and is what is yielded", ok,
-               "" if ok else why)
-    ctx.floor("C17.R1", len(ys), 1, "yield sites in the tournament loop")
+def tournament(ctx: Ctx, cls, fn: FunctionInfo) -> None:
+    """Model check (sa/rules/c17model.py): iterate() interpreted on three individuals for tournament sizes 1, 2 and 4 (beyond
+    the population), with and without replacement, several pick scripts and fitness assignments (ties, all -inf): every
+    yielded individual is a member of the population, is one of the participants drawn for its tournament (the random.choice
+    results since the previous winner), is at least as fit as each of them, and tournament_size participants were drawn."""
+    from ..modelinterp import Budget, Sym, UNKNOWN
+    from .c17model import SelScript, run_selection
+    tags = ["i1", "i2", "i3"]
+    bad: dict[str, tuple] = {}
+    und = None
+    n = 0
+    rank_sets = [{"i1": 1.0, "i2": 3.0, "i3": 2.0}, {"i1": 2.0, "i2": 2.0, "i3": 1.0}, {"i1": float("-inf"), "i2": float("-inf"), "i3": float("-inf")},
+                 {"i1": -1.0, "i2": -5.0, "i3": -3.0}]
+    scripts = [[0, 1, 2, 0, 1, 2, 0, 1, 2, 0, 1, 2], [2, 2, 1, 0, 0, 1, 2, 1, 0, 2, 1, 0], [1, 0, 1, 0, 1, 0, 1, 0, 1, 0, 1, 0]]
+    for ranks in rank_sets:
+        for ts in (1, 2, 4):
+            for repl in (False, True):
+                for picks in scripts:
+                    try:
+                        runs = run_selection(ctx, cls, fn, tags, ranks, {t: [-ranks[t]] for t in tags}, [True], SelScript(picks, []),
+                                             {"tournament_size": ts, "with_replacement": repl}, target_size=3)
+                    except Budget:
+                        und = "too many interpretations"
+                        continue
+                    for trace, rv, notes in runs:
+                        if any(e.kind == "raise" for e in trace):
+                            continue   # e.g. choice from an empty list: outside what this rule decides
+                        n += 1
+                        scen = {"ranks": {k: str(v) for k, v in ranks.items()}, "tournament_size": ts, "with_replacement": repl, "picks": picks[:6]}
+                        drawn: list = []
+                        nw = 0
+                        for e in trace:
+                            if e.kind == "call" and e.name == "choice":
+                                drawn.append(e.args[1])
+                                if not all(isinstance(x, Sym) and x.tag in tags for x in e.args[0]):
+                                    bad.setdefault("draws", ("participants are not drawn from (a list derived from) the input population", scen))
+                            elif e.kind == "yield" and e.name == "":
+                                w = e.args[0]
+                                nw += 1
+                                if not (isinstance(w, Sym) and w.tag in tags):
+                                    if w is UNKNOWN:
+                                        und = und or "a yielded value is not followed"
+                                    else:
+                                        bad.setdefault("member", (f"winner {nw} is {w!r}, not a member of the population", scen))
+                                    drawn = []
+                                    continue
+                                if not drawn:
+                                    bad.setdefault("participants", (f"winner {nw} is yielded without any participant drawn for its tournament", scen))
+                                else:
+                                    if w not in drawn:
+                                        bad.setdefault("participants", (f"winner {nw} ({w!r}) is not one of its tournament's participants {drawn!r}", scen))
+                                    worse = [p_ for p_ in drawn if isinstance(p_, Sym) and ranks[p_.tag] > ranks[w.tag]]
+                                    if worse:
+                                        bad.setdefault("fittest", (f"winner {nw} ({w!r}, aggregate {ranks[w.tag]}) is less fit than participant "
+                                                                   f"{worse[0]!r} ({ranks[worse[0].tag]}) of its own tournament", scen))
+                                    if len(drawn) != ts:
+                                        bad.setdefault("size", (f"{len(drawn)} participants were drawn for winner {nw}, tournament_size is {ts}", scen))
+                                drawn = []
+                            elif e.kind == "yield":
+                                und = und or "yield from: winners not followed"
+    for key, desc in (("member", "every winner is a member of the population"),
+                      ("participants", "every winner is one of the participants drawn for its tournament"),
+                      ("fittest", "every winner is at least as fit (maximising aggregate) as every participant of its tournament"),
+                      ("size", "tournament_size participants are drawn per tournament"),
+                      ("draws", "participants are random.choice draws from the population")):
+        b = bad.get(key)
+        ctx.ob("C17.R1", fn, fn.node, f"{cls.name}: {desc}", False if b else (None if und else True), b[0] if b else (und or ""),
+               witness=b[1] if b else {"scenarios": n})
+    ctx.floor("C17.R1", n, 40, "interpreted tournament scenarios")
 
 
-def lexicase(ctx: Ctx, fn: FunctionInfo) -> None:
-    pop = fn.params[5]
-    prob = fn.params[1]
-    loop = winner_loop(fn)
-    if loop is None:
-        ctx.ob("C17.R2", fn, fn.node, "per-winner loop", None, "no loop yielding winners")
-        return
-    # ---- R2: case order consumed inside the filtering loop is defined by a shuffle in this iteration
-    pops = [c for st in loop.body for c in ast.walk(st) if isinstance(c, ast.Call) and call_name(c) == "pop"
-            and isinstance(c.func, ast.Attribute) and isinstance(c.func.value, ast.Name)
-            and any(isinstance(a, ast.While) for a in ancestors(c))]
-    case_lists = {c.func.value.id for c in pops}
-    # also the 'for c in cases' form
-    inner_for = [l for st in loop.body for l in ast.walk(st) if isinstance(l, ast.For) and isinstance(l.iter, ast.Name)]
-    n2 = 0
-    for nm in sorted(case_lists):
-        n2 += 1
-        use = next(c for c in pops if c.func.value.id == nm)
-        d = last_def_before(loop.body, nm, top_in(loop.body, use))
-        sh = [x for x in ast.walk(d.value) if isinstance(x, ast.Call) and call_name(x) == "shuffle"] if d is not None else []
-        ok = bool(sh)
-        why = f"'{nm}' is consumed with pop() but not re-created by a shuffle inside the per-winner loop: from the " \
-              f"second winner on the case list is exhausted and no filtering happens"
-        if ok:
-            # shuffle works in place and returns its argument: the list it is given must be created in this iteration
-            arg = sh[0].args[0] if sh[0].args else None
-            fresh = _fresh_list(arg)
-            if not fresh and isinstance(arg, ast.Name):
-                d2 = last_def_before(loop.body, arg.id, top_in(loop.body, d))
-                fresh = d2 is not None and _fresh_list(d2.value)
-            if not fresh:
-                ok = False
-                why = f"shuffle() permutes '{norm(arg)}' in place and returns the same list; that list is created " \
-                      f"outside the per-winner loop, so pop() drains it across winners and later winners are not filtered"
-        ctx.ob("C17.R2", fn, use, f"case order '{nm}' is a fresh shuffled list inside each winner's iteration", ok,
-               "" if ok else why)
-    if not case_lists:
-        for l in inner_for:
-            d_in = last_def_before(loop.body, l.iter.id, top_in(loop.body, l))
-            shuffled_in = d_in is not None and any(isinstance(x, ast.Call) and call_name(x) == "shuffle" for x in ast.walk(d_in.value))
-            if any(call_name(x) == "shuffle" for x in ast.walk(fn.node) if isinstance(x, ast.Call)):
-                n2 += 1
-                ctx.ob("C17.R2", fn, l, f"case order '{l.iter.id}' is shuffled afresh inside each winner's iteration",
-                       shuffled_in, "" if shuffled_in else "the case order is fixed once for all winners")
-    ctx.floor("C17.R2", n2, 1, "case-order consumption sites")
+def _ref_lexicase(avail: list, order: list, comps: dict, minimize: list, epsilon: bool) -> list:
+    import statistics
+    S = list(avail)
+    for c in order:
+        if len(S) <= 1:
+            break
+        vals = [comps[x][c] for x in S]
+        best = min(vals) if minimize[c] else max(vals)
+        thr = best
+        if epsilon:
+            med = statistics.median(vals)
+            mad = statistics.median([abs(v - med) for v in vals])
+            thr = best + mad if minimize[c] else best - mad
+        S = [x for x in S if (comps[x][c] <= thr if minimize[c] else comps[x][c] >= thr)]
+    return S
 
-    # ---- R3: direction per case
-    def flag_of(t: ast.AST) -> Optional[bool]:
-        """True if t denotes problem.minimize[c], False if its negation."""
-        neg = False
-        while isinstance(t, ast.UnaryOp) and isinstance(t.op, ast.Not):
-            neg, t = not neg, t.operand
-        if isinstance(t, ast.Subscript) and isinstance(t.value, ast.Attribute) and t.value.attr == "minimize":
-            return not neg
-        return None
 
-    n3 = 0
-    for x in [x for st in loop.body for x in ast.walk(st)]:
-        if isinstance(x, ast.IfExp) and flag_of(x.test) is not None:
-            pol = flag_of(x.test)
-            when_min, when_max = (x.body, x.orelse) if pol else (x.orelse, x.body)
-            n3 += 1
-            if isinstance(when_min, ast.Name) and isinstance(when_max, ast.Name) and {when_min.id, when_max.id} <= {"min", "max"}:
-                ok = when_min.id == "min" and when_max.id == "max"
-                ctx.ob("C17.R3", fn, x, "best value per case: min when minimised, max otherwise", ok,
-                       "" if ok else "the best value on a case is taken in the wrong direction")
-            elif isinstance(when_min, ast.BinOp) and isinstance(when_max, ast.BinOp):
-                ok = isinstance(when_min.op, ast.Add) and isinstance(when_max.op, ast.Sub)
-                ctx.ob("C17.R3", fn, x, "epsilon band: best + mad when minimised, best - mad otherwise", ok,
-                       "" if ok else "the epsilon band is applied in the wrong direction")
-            else:
-                ctx.ob("C17.R3", fn, x, f"direction-dependent expression {norm(x)[:60]}", None, "unrecognised form")
-        if isinstance(x, ast.If) and flag_of(x.test) is not None:
-            pol = flag_of(x.test)
-            bmin, bmax = (x.body, x.orelse) if pol else (x.orelse, x.body)
-            cm = [c for s in bmin for c in ast.walk(s) if isinstance(c, ast.Compare)]
-            cx = [c for s in bmax for c in ast.walk(s) if isinstance(c, ast.Compare)]
-            if len(cm) == 1 and len(cx) == 1:
-                n3 += 1
-                def dirn(c: ast.Compare) -> Optional[str]:
-                    comp_left = any(isinstance(z, ast.Attribute) and z.attr == "fitness_components" for z in ast.walk(c.left))
-                    op = c.ops[0]
-                    if isinstance(op, (ast.LtE, ast.Lt)):
-                        return "le" if comp_left else "ge"
-                    if isinstance(op, (ast.GtE, ast.Gt)):
-                        return "ge" if comp_left else "le"
-                    return None
-                ok = dirn(cm[0]) == "le" and dirn(cx[0]) == "ge"
-                strict = isinstance(cm[0].ops[0], (ast.Lt, ast.Gt)) or isinstance(cx[0].ops[0], (ast.Lt, ast.Gt))
-                ctx.ob("C17.R3", fn, x, "survivors: component <= threshold when minimised, >= otherwise", ok and not strict,
-                       "" if ok and not strict else ("a strict comparison removes the individual that attains the best value "
-                                                     "itself" if ok else "survivors are kept in the wrong direction"))
-    ctx.floor("C17.R3", n3, 3, "direction-dependent constructs")
-    # threshold computed from the current candidates
-    wl = [w for st in loop.body for w in ast.walk(st) if isinstance(w, ast.While)]
-    for w in wl:
-        cur = None
-        t = w.test
-        for c in ast.walk(t):
-            if isinstance(c, ast.Call) and call_name(c) == "len" and c.args and isinstance(c.args[0], ast.Name):
-                cur = c.args[0].id
-        bests = [a for st in w.body for a in ast.walk(st) if isinstance(a, ast.Assign) and isinstance(a.value, ast.Call)
-                 and isinstance(a.value.func, ast.Name) and a.value.args
-                 and isinstance(a.value.args[0], (ast.ListComp, ast.GeneratorExp))
-                 and any(isinstance(z, ast.Attribute) and z.attr == "fitness_components" for z in ast.walk(a.value))]
-        for b in bests:
-            it = b.value.args[0].generators[0].iter
-            ok = isinstance(it, ast.Name) and it.id == cur
-            ctx.ob("C17.R3", fn, b, "threshold is the best value among the candidates still in play", ok,
-                   "" if ok else f"the best value is computed over '{norm(it)}', not over the current candidates '{cur}'")
-        # the filtered list replaces the current candidates
-        reass = [a for st in w.body for a in ast.walk(st) if isinstance(a, ast.Assign)
-                 and any(isinstance(t_, ast.Name) and t_.id == cur for t_ in a.targets)]
-        ctx.ob("C17.R3", fn, w, "filtered survivors become the current candidates", bool(reass),
-               "" if reass else "the candidates are never narrowed")
+def lexicase(ctx: Ctx, cls, fn: FunctionInfo) -> None:
+    """Model check: iterate() interpreted on three individuals with two cases, all four minimise-flag combinations, two fitness
+    tables, scripted shuffles (a different permutation for each winner) and both epsilon settings.  For every winner: exactly
+    one shuffle of the full case list happened since the previous winner (R2); the winner is among the survivors of the
+    reference lexicase filter for that order over the individuals still available (R3); winners are members of the
+    population, drawn from the remaining pool, and no individual is returned twice (R4)."""
+    from ..modelinterp import Budget, Sym, UNKNOWN
+    from .c17model import SelScript, run_selection
+    tags = ["i1", "i2", "i3"]
+    tables = [{"i1": [1, 5], "i2": [3, 2], "i3": [1, 2]}, {"i1": [4, 4], "i2": [2, 7], "i3": [3, 1]}]
+    bad: dict[str, tuple] = {}
+    und = None
+    n = 0
+    for comps in tables:
+        for minimize in ([True, False], [False, True], [True, True], [False, False]):
+            for perms in ([[0, 1], [1, 0], [0, 1]], [[1, 0], [0, 1], [1, 0]]):
+                for eps in (False, True):
+                    for picks in ([0, 0, 0], [1, 1, 1]):
+                        try:
+                            runs = run_selection(ctx, cls, fn, tags, {t: 0 for t in tags}, comps, list(minimize), SelScript(picks, perms),
+                                                 {"epsilon": eps}, target_size=3)
+                        except Budget:
+                            und = "too many interpretations"
+                            continue
+                        for trace, rv, notes in runs:
+                            if any(e.kind == "raise" for e in trace):
+                                nm_ = [e.name for e in trace if e.kind == "raise"][0]
+                                scen0 = {"fitness": comps, "minimize": minimize, "case_orders": perms, "epsilon": eps}
+                                if nm_.startswith("IndexError"):
+                                    bad.setdefault("survivor", (f"selection fails ({nm_}): no candidate survives the filter - the threshold / "
+                                                                f"comparison is applied in the wrong direction or to the wrong candidates", scen0))
+                                else:
+                                    und = und or f"a path raises ({nm_})"
+                                continue
+                            n += 1
+                            scen = {"fitness": comps, "minimize": minimize, "case_orders": perms, "epsilon": eps}
+                            shuffles: list = []
+                            winners: list = []
+                            for e in trace:
+                                if e.kind == "call" and e.name == "shuffle":
+                                    shuffles.append(e)
+                                elif e.kind == "yield" and e.name == "":
+                                    w = e.args[0]
+                                    k = len(winners)
+                                    if not (isinstance(w, Sym) and w.tag in tags):
+                                        if w is UNKNOWN:
+                                            und = und or "a yielded value is not followed"
+                                        else:
+                                            bad.setdefault("member", (f"winner {k + 1} is {w!r}, not a member of the population", scen))
+                                        winners.append(None)
+                                        shuffles = []
+                                        continue
+                                    if len(shuffles) != 1 or sorted(shuffles[0].args[0]) != [0, 1]:
+                                        bad.setdefault("shuffle", (
+                                            f"{len(shuffles)} shuffle(s) of the full case list happened for winner {k + 1}"
+                                            + (f" (the list handed to shuffle was {shuffles[0].args[0]!r})" if shuffles else "")
+                                            + ": the case order is not freshly shuffled for every winner (from the second winner on the "
+                                              "order is reused or exhausted and no filtering happens)", scen))
+                                    order = perms[k] if k < len(perms) else [0, 1]
+                                    avail = [t for t in tags if t not in [x for x in winners if x]]
+                                    S = _ref_lexicase(avail, order, comps, minimize, eps)
+                                    if w.tag in [x for x in winners if x]:
+                                        bad.setdefault("once", (f"{w!r} is returned a second time (winner {k + 1}): more copies than the population contains", scen))
+                                    elif w.tag not in S:
+                                        bad.setdefault("survivor", (
+                                            f"winner {k + 1} is {w!r}; the survivors of the lexicase filter for case order {order} over {avail} are {S} "
+                                            f"(minimise flags {minimize}, epsilon {eps})", scen))
+                                    winners.append(w.tag)
+                                    shuffles = []
+                                elif e.kind == "yield":
+                                    und = und or "yield from: winners not followed"
+    for key, rule, desc in (("shuffle", "C17.R2", "the case order is a fresh shuffle of all cases for every winner"),
+                            ("survivor", "C17.R3", "every winner survives the lexicase filter (direction and epsilon band per case, threshold from the current candidates)"),
+                            ("member", "C17.R4", "every winner is a member of the population"),
+                            ("once", "C17.R4", "no individual is returned more often than it occurs in the population")):
+        b = bad.get(key)
+        ctx.ob(rule, fn, fn.node, f"{cls.name}: {desc}", False if b else (None if und else True), b[0] if b else (und or ""),
+               witness=b[1] if b else {"scenarios": n})
+    ctx.floor("C17.R3", n, 60, "interpreted lexicase scenarios")
 
-    # ---- R4: multiplicity
-    der = derived_names(fn, {pop})
-    ys = [y for st in loop.body for y in ast.walk(st) if isinstance(y, ast.Yield)]
-    for y in ys:
-        w = y.value
-        ystmt = top_in(loop.body, y)
-        ok_rm = False
-        pool = None
-        if isinstance(w, ast.Name):
-            for st in loop.body[loop.body.index(ystmt) + 1:]:
-                if isinstance(st, ast.Expr) and isinstance(st.value, ast.Call) and call_name(st.value) == "remove" \
-                        and st.value.args and isinstance(st.value.args[0], ast.Name) and st.value.args[0].id == w.id \
-                        and isinstance(st.value.func.value, ast.Name):
-                    ok_rm = True
-                    pool = st.value.func.value.id
-        ctx.ob("C17.R4", fn, y, "each yielded winner is removed from the pool once", ok_rm,
-               "" if ok_rm else "a winner stays in the pool: an individual can be returned more often than it occurs")
-        if pool is not None:
-            # pool is a fresh copy of the population (not the caller's list)
-            defs = [a for a in walk_local(fn.node) if isinstance(a, ast.Assign)
-                    and any(isinstance(t_, ast.Name) and t_.id == pool for t_ in a.targets)]
-            fresh = bool(defs) and all(isinstance(a.value, ast.Call) and call_name(a.value) in ("list", "copy", "sorted")
-                                       or isinstance(a.value, ast.ListComp) for a in defs) and pool in der
-            ctx.ob("C17.R4", fn, defs[0] if defs else y, "the pool is a fresh copy of the input population", fresh,
-                   "" if fresh else "the pool aliases the caller's population (or is not derived from it)")
-            # winner drawn from a list derived from the pool
-            d = last_def_before(loop.body, w.id, ystmt) if isinstance(w, ast.Name) else None
-            src_ok = d is not None and _selects_from(d.value, derived_names(fn, {pool}))
-            ctx.ob("C17.R4", fn, d or y, "winner is drawn from the remaining pool", src_ok,
-                   "" if src_ok else "the winner does not come from the remaining candidates")
+
+def _self_callees(prog, cls, f: FunctionInfo) -> list:
+    out = []
+    for x in walk_local(f.node):
+        if isinstance(x, ast.Call) and isinstance(x.func, ast.Attribute) and is_self_attr(x.func):
+            g = prog.lookup_method(cls, x.func.attr)
+            if g is not None and g not in out:
+                out.append(g)
+    return out
 
 
 def run(ctx: Ctx) -> None:
@@ -342,16 +330,17 @@ def run(ctx: Ctx) -> None:
     check_key_function(ctx)
     tour = lex = 0
     for c in prog.subclasses(STEP):
-        it = c.methods.get("iterate")
-        if it is None:
+        it = prog.lookup_method(c, "iterate")
+        if it is None or it.cls is None or it.cls.fullname == STEP:
             continue
-        src = [call_name(x) for x in ast.walk(it.node) if isinstance(x, ast.Call)]
-        if any(isinstance(x, ast.Attribute) and x.attr == "tournament_size" for x in ast.walk(it.node)):
+        init = prog.lookup_method(c, "__init__")
+        init_params = set(init.params) if init is not None else set()
+        if "tournament_size" in init_params:
             tour += 1
-            tournament(ctx, it)
-        elif "shuffle" in src and any(isinstance(x, ast.Attribute) and x.attr == "minimize" for x in ast.walk(it.node)):
+            tournament(ctx, c, it)
+        elif "epsilon" in init_params and any(call_name(x) == "shuffle" for g in [it] + _self_callees(prog, c, it) for x in ast.walk(g.node) if isinstance(x, ast.Call)):
             lex += 1
-            lexicase(ctx, it)
+            lexicase(ctx, c, it)
     ctx.floor("C17.R1", tour, 1, "tournament selection steps")
     ctx.floor("C17.R2", lex, 1, "lexicase selection steps")
     ctx.assumptions += ["RandomSource.choice returns a member of its argument (C18)",
